@@ -4,6 +4,7 @@ pub mod driver;
 pub mod engine;
 pub mod gens;
 pub mod props;
+pub mod rt;
 
 pub use engine::{Entry, entry};
 
